@@ -46,6 +46,7 @@ pub enum STok {
     Var(Seq<char>),
     Wild(Seq<char>),
     Group(Seq<STok>),
+    Const(bool),          // constant atoms: never produced by the tokenizer (constants are lexed as propositions)
 }
 pub open spec fn view_tok(t: HctlToken) -> STok decreases t, 0int {
     match t {
@@ -55,8 +56,8 @@ pub open spec fn view_tok(t: HctlToken) -> STok decreases t, 0int {
         HctlToken::Atom(Atomic::Prop(n)) => STok::Prop(n@),
         HctlToken::Atom(Atomic::Var(n)) => STok::Var(n@),
         HctlToken::Atom(Atomic::WildCardProp(n)) => STok::Wild(n@),
-        HctlToken::Atom(Atomic::True) => STok::Prop("True"@),     // never produced by the tokenizer
-        HctlToken::Atom(Atomic::False) => STok::Prop("False"@),   // never produced by the tokenizer
+        HctlToken::Atom(Atomic::True) => STok::Const(true),       // never produced by the tokenizer
+        HctlToken::Atom(Atomic::False) => STok::Const(false),     // never produced by the tokenizer
         HctlToken::Tokens(v) => STok::Group(view_toks(v@)),
     }
 }
